@@ -61,6 +61,7 @@ def check(P, rep):
         others = [e for e in state_effects(g) if e.kind not in ('invoke',)]
         rep.check(not others, 'C17.R2', 'execute:no-other-effects', 'execute has no effect besides the forward', entry_id(g),
                   '; '.join(x.describe() for x in others)[:300])
+    storage_classes(P, rep, 'C17.R3', CN, {'Operators': 'instance', 'Interfaces_Owner': 'instance'})
     # R3 who-may-write Operators(_)
     nw = 0
     for cn, en in P.all_entries():
